@@ -132,6 +132,8 @@ class Env:
             return L(c, 1, (2,))
         if kind == "t":
             return L(c, 1, (2, 2))
+        if kind == "t4":
+            return L(c, 1, (2, 2, 2, 2))
         if kind == "m":
             return self.M([L(c, 2, (2,)), L(c, 1)])
         raise ValueError(kind)
@@ -212,7 +214,7 @@ def perform_history(delta):
 GEO_KINDS = ["CellVolume", "Circumradius", "CellDiameter", "SpatialCoordinate"]
 
 
-SIM_OPS = {"mesh", "const", "vconst", "coef", "vcoef", "tcoef", "mcoef", "qcoef", "scoef", "geo", "index", "idx", "idx2", "comp", "sum", "sub", "prod", "zeromul", "cond", "var", "lit", "neg", "grad", "integ"}
+SIM_OPS = {"mesh", "const", "vconst", "coef", "vcoef", "tcoef", "mcoef", "qcoef", "scoef", "geo", "index", "idx", "idx2", "comp", "sum", "sub", "prod", "zeromul", "cond", "var", "lit", "neg", "grad", "dx", "integ"}
 
 
 def run_script(script, E, sim=None):
@@ -294,6 +296,8 @@ def run_script(script, E, sim=None):
             r = getattr(ufl, op)(g(a), g(b))
         elif op == "grad":
             r = ufl.grad(g(a))
+        elif op == "dx":  # a.dx(i) / a.dx(i, j): grad(..)[..., i, j], summing the indices that are free in a
+            r = g(a).dx(*([g(b)] + ([g(c)] if c else [])))
         elif op == "astensor":
             r = ufl.as_tensor(g(a), (g(b),) if not c else (g(b), g(c)))
         elif op == "plus":
@@ -452,6 +456,47 @@ def r_coefficients_two_meshes(E):
     f1, f2 = ufl.Coefficient(E.space(m1)), ufl.Coefficient(E.space(m2))
     g1 = ufl.Coefficient(E.space(m1, "v"))
     return {"form": f2 * f1 * ufl.dx(m1) + f1 * f2 * g1[0] * ufl.dx(m2) + f1 * ufl.ds(m2)}
+
+
+@recipe
+def r_three_meshes(E):
+    """Forms whose integrands have terminals on two meshes that are NOT integration domains (the
+    numbering of those domains: Form._analyze_domains), the integration domain being the first, the
+    middle and the last mesh created; a coefficient over a MeshSequence of two such meshes."""
+    ufl, (m0, m1, m2) = _std(E, 3)
+    f0, f1, f2 = (ufl.Coefficient(E.space(m)) for m in (m0, m1, m2))
+    c1, c2 = ufl.Constant(m1), ufl.Constant(m2)
+    x0, x2 = ufl.SpatialCoordinate(m0), ufl.SpatialCoordinate(m2)
+    v1 = ufl.TestFunction(E.space(m1))
+    g = ufl.Coefficient(E.seqspace(m0, m2))
+    g0, g2 = ufl.split(g)
+    return {
+        "form": f1 * f2 * ufl.dx(m0),
+        "form_mid": f0 * f2 * c2 * ufl.dx(m1),
+        "form_last": (ufl.CellVolume(m0) * c1 + x0[0] * f1) * ufl.dx(m2),
+        "form_linear": x2[1] * f0 * v1 * ufl.dx(m0) + c2 * f2 * v1 * ufl.ds(m0),
+        "form_sequence": g0 * g2 * f0 * ufl.dx(m1),
+        "form_two_integrals": f2 * c1 * ufl.dx(m0) + ufl.CellVolume(m2) * f0 * ufl.dx(m1),
+    }
+
+
+@recipe
+def r_subscript_contractions(E):
+    """Implicit summation inside ONE subscript (create_slice_indices): two indices twice on a rank-4
+    tensor, in both orders; .dx(i, j) of an expression with the free indices i, j; an index twice
+    next to a slice and to a free index."""
+    ufl, (m,) = _std(E)
+    C = ufl.Coefficient(E.space(m, "t4"))
+    A = ufl.Coefficient(E.space(m, "t"))
+    u, v = ufl.Coefficient(E.space(m, "v")), ufl.Coefficient(E.space(m, "v"))
+    i, j, k = ufl.indices(3)
+    return {
+        "form": C[i, j, i, j] * ufl.dx,
+        "form_rev": (C[j, i, j, i] + C[i, j, j, i] * C[k, k, 0, 1]) * ufl.dx,
+        "form_dx": ((v[i] * u[j]).dx(i, j) + A[j, i].dx(i, j) * u[k].dx(k)) * ufl.dx,
+        "form_slice": ufl.inner(C[i, :, i, :], A) * ufl.dx + C[k, j, k, i] * A[i, j] * ufl.dx,
+        "expr": ufl.as_tensor(C[i, j, i, k] * u[j], (k,)),
+    }
 
 
 @recipe
@@ -1029,6 +1074,18 @@ FAM_SMALL = dict(mesh=2, const=2, coef=1, vcoef=1, geo=1, index=1, idx=1, sum=1,
 FAM_CROSS = dict(mesh=2, const=2, scoef=1, comp=1, sum=1, prod=1)
 FAM_CROSS_T = dict(mesh=2, const=3, coef=1, scoef=1, comp=1, sum=1, prod=2)
 CROSS_BOUNDARIES = {"quick": [10, 100], "thorough": [10, 100, 1000]}
+# forms over THREE meshes (`Need`: every finished script has three): terminals of every class that
+# carries a domain on meshes that are not the integration domain, the integration domain being any
+# of the three (integ) -- the numbering of the domains of a form (Form._analyze_domains: integration
+# domains, then the others sorted by ufl_id) under placements of the Mesh counter
+FAM_DOMAINS = dict(mesh=3, const=1, coef=1, geo=1, prod=2, integ=1)
+FAM_DOMAINS_T = dict(mesh=3, const=1, coef=2, scoef=1, geo=1, comp=1, prod=2, integ=1)
+# index notation: subscripts a[i], a[i, j] of vector / tensor valued expressions WITH free indices
+# (grad(..)[i, j] = .dx(i, j)) and with an index twice (a[i, i]): implicit summation inside ONE
+# subscript (create_slice_indices: IndexSum nesting in the order of the subscript) next to the one of
+# products (merge_overlapping_indices: by count), under placements of the Index counter
+FAM_CONTRACT = dict(mesh=1, vcoef=1, tcoef=1, index=2, idx=2, idx2=2, grad=2, prod=1)
+FAM_CONTRACT_T = dict(mesh=1, coef=1, vcoef=1, tcoef=1, index=3, idx=2, idx2=2, grad=2, prod=2)
 
 
 def real_typecodes():
@@ -1165,8 +1222,21 @@ def compare_dumps(b, v):
     for _, d in v:
         _terminals(d, tv)
     if sorted(tb) != sorted(tv):
-        for cls in sorted({c for c, _ in set(tb) ^ set(tv)}):
-            found.append(("terminal-data", cls))
+        import re
+
+        classes = sorted({c for c, _ in set(tb) ^ set(tv)})
+        erased = [sorted((c, re.sub(r"('Mesh', )\d+", r"\1#", x)) for c, x in t) for t in (tb, tv)]
+        numbers = [sorted(n for _, x in t for n in re.findall(r"'Mesh', (\d+)", x)) for t in (tb, tv)]
+        if erased[0] == erased[1] and numbers[0] == numbers[1]:
+            # the same terminals with the same set of domain numbers, given to different domains
+            found.append(("domain-numbering-order", None))
+        elif classes == ["MultiIndex"] and [_pkey(d, True) for _, d in b] == [_pkey(d, True) for _, d in v]:
+            # the same tree up to the names of the indices, which are numbered in traversal order:
+            # the summations over them are nested in a different order
+            found.append(("summation-index-order", None))
+        else:
+            for cls in classes:
+                found.append(("terminal-data", cls))
     mb, mv, nb, nv = {}, {}, {}, {}
     for _, d in b:
         _comm_nodes(d, mb, nb)
@@ -1253,6 +1323,8 @@ class Run:
 def guess_counter(finding):
     """The counter a finding points at (verified afterwards in fresh processes)."""
     kind, info = finding
+    if kind in ("domain-numbering-order", "summation-index-order"):
+        return "Mesh" if kind == "domain-numbering-order" else "Index"
     if kind == "terminal-data":
         return {"Zero": "Index", "MultiIndex": "Index", "Constant": "Constant", "Coefficient": "Coefficient", "Label": "Label"}.get(info, "Mesh")
     if kind == "operand-order" and info.get("by") == "terminal":
@@ -1618,7 +1690,8 @@ def gen_script(rng):
         S.append(ty)
         return len(S)
 
-    nmesh = 2 if rng.random() < 0.35 else 1
+    r = rng.random()
+    nmesh = 3 if r < 0.15 else 2 if r < 0.4 else 1
     meshes = [emit({"op": "mesh"}, ("mesh",)) for _ in range(nmesh)]
     pm = lambda: meshes[0] if rng.random() < 0.7 else rng.choice(meshes)  # noqa: E731
     for _ in range(rng.randint(0, 4)):
@@ -1651,7 +1724,7 @@ def gen_script(rng):
         return c[-1 - min(int(rng.expovariate(0.5)), len(c) - 1)] if rng.random() < 0.5 else rng.choice(c)
 
     for _ in range(rng.randint(3, 12)):
-        op = rng.choice(["sum", "prod", "prod", "prod", "sub", "div", "neg", "sq", "fn", "idx", "idx2", "comp", "zeromul", "cond", "var", "inner", "grad", "astensor", "sum"])
+        op = rng.choice(["sum", "prod", "prod", "prod", "sub", "div", "neg", "sq", "fn", "idx", "idx2", "comp", "zeromul", "cond", "var", "inner", "grad", "astensor", "sum", "dx"])
         if op in ("sum", "sub"):
             a = pick(lambda t: True)
             if a is None:
@@ -1692,6 +1765,13 @@ def gen_script(rng):
                 continue
             i, j = rng.sample(idxs, 2)
             emit({"op": "idx2", "a": a, "b": i, "c": j}, ("e", 0, frozenset([i, j])))
+        elif op == "dx" and idxs:  # a.dx(i) / a.dx(i, j); the indices that are free in a are summed
+            a = pick(lambda t: t[1] == 0)
+            if a is None:
+                continue
+            ii = rng.sample(idxs, 2 if len(idxs) >= 2 and rng.random() < 0.6 else 1)
+            fa = S[a - 1][2]
+            emit({"op": "dx", "a": a, "b": ii[0], "c": ii[1] if len(ii) == 2 else 0}, ("e", 0, (fa | frozenset(ii)) - (fa & frozenset(ii))))
         elif op == "comp":
             a = pick(lambda t: t[1] == 1 and not t[2])
             if a is None:
@@ -1811,36 +1891,129 @@ def plan_models(ctx):
     return intended, emit, coded, (comparator, cmp_of, zerosig)
 
 
-def plan_cross(ctx, transcription, w):
-    """The cross family: terminals that embed several counters, under placement histories of all
-    those counters at once.  One TLC run emits the behaviours of the transcription that matches the
-    code under test; when that transcription IS the intended machine the same run proves
-    SigInvariant over the family, otherwise the intended machine gets its own run."""
+def _free_indices(script):
+    """Static typing of a model script: per store position the set of free indices (positions of
+    the `index` instructions) and, per subscript instruction, the number of indices it sums."""
+    fi, summed = [], []
+    for i in script:
+        op, a = i["op"], i.get("a", 0)
+        A = fi[a - 1] if a else frozenset()
+        if op in ("idx", "idx2"):
+            ii = [i["b"]] + ([i["c"]] if op == "idx2" else [])
+            rep = [x for n, x in enumerate(ii) if x in A or x in ii[:n]]
+            summed.append(len(rep))
+            fi.append((A | frozenset(ii)) - frozenset(rep))
+        elif op == "prod":
+            fi.append(A ^ fi[i["b"] - 1])
+        elif op in ("grad", "sum", "zeromul"):
+            fi.append(A)
+        elif op == "cond":
+            fi.append(fi[i["b"] - 1])
+        else:
+            fi.append(frozenset())
+    return fi, summed
+
+
+def _vac_cross(by_script):
+    ops = {i["op"] for v in by_script.values() for i in v["script"]}
+    multi = sum(1 for v in by_script.values() for o in v["offs"] if sum(1 for x in o if x) >= 2)
+    if not multi or "scoef" not in ops or not any(len({i["a"] for i in v["script"] if i["op"] == "const"}) > 1 for v in by_script.values()):
+        return f"behaviours with several shifted counters: {multi}, instructions {sorted(ops)}"
+
+
+def _vac_domains(by_script):
+    """needs forms whose integrand has terminals on TWO meshes that are not the integration domain,
+    integrated over the first, over another mesh (integ) and without integ"""
+    seen = set()
+    for v in by_script.values():
+        sc = v["script"]
+        if sum(1 for i in sc if i["op"] == "mesh") < 3:
+            return "a finished script with fewer than three meshes"
+        dom = sc[-1]["b"] if sc[-1]["op"] == "integ" else 1
+        others = {m for i in sc if i["op"] in ("const", "coef", "vcoef", "scoef", "geo") for m in ([i["a"], i["b"]] if i["op"] == "scoef" else [i["a"]])} - {dom}
+        if len(others) >= 2:
+            seen.add("first" if dom == 1 and sc[-1]["op"] == "integ" else "implicit" if dom == 1 else "other")
+            seen |= {i["op"] for i in sc if i["op"] in ("const", "coef", "geo") and i["a"] != dom}
+    want = {"first", "other", "implicit", "const", "coef", "geo"}
+    if not want <= seen:
+        return f"no form with two domains besides the integration domain for {sorted(want - seen)}"
+
+
+def _vac_contract(by_script):
+    """needs a subscript that sums two indices at once, one that sums an index occurring twice, one
+    that sums a free index of the subscripted expression, and a product summing two indices"""
+    seen = set()
+    for v in by_script.values():
+        fi, summed = _free_indices(v["script"])
+        seen |= {f"subscript-sums-{n}" for n in summed}
+        for i in v["script"]:
+            if i["op"] == "prod" and len(fi[i["a"] - 1] & fi[i["b"] - 1]) >= 2:
+                seen.add("product-sums-2")
+            if i["op"] == "idx2" and i["b"] == i["c"]:
+                seen.add("index-twice")
+    want = {"subscript-sums-0", "subscript-sums-1", "subscript-sums-2", "product-sums-2", "index-twice"}
+    if not want <= seen:
+        return f"missing {sorted(want - seen)}"
+
+
+class Placed:
+    """A family of scripts that TLC enumerates together with PLACEMENT histories (a digit boundary
+    inside the objects of every counted class in `kinds`); every behaviour is replayed on the real
+    code (cross_chains / cross_judge)."""
+
+    def __init__(self, name, caps, steps, kinds, vacuous, *, need=None, min_placed=1, budget=2000, n_sim=1, n_real=4):
+        self.name, self.caps, self.steps, self.kinds, self.vacuous, self.need = name, caps, steps, kinds, vacuous, need
+        self.min_placed, self.budget, self.n_sim, self.n_real = min_placed, budget, n_sim, n_real
+        self.emit = self.intended = self.state = None
+
+    @property
+    def cov_key(self):
+        return self.name + "_family"
+
+
+def plan_placed(ctx, transcription, w, only=None):
+    """The families with placement histories.  cross: terminals that embed several counters, all
+    those counters placed at once; domains: forms over three meshes, the Mesh counter placed;
+    contraction: implicit summation inside subscripts, the Index counter placed.  One TLC run per
+    family emits the behaviours of the transcription that matches the code under test; when that
+    transcription IS the intended machine the same run proves SigInvariant over the family,
+    otherwise the intended machine gets its own run."""
     comparator, cmp_of, zerosig = transcription
-    quick = ctx.tier == "quick"
-    fam, steps, kinds = (FAM_CROSS, 6, ["Mesh", "Constant"]) if quick else (FAM_CROSS_T, 7, ["Mesh", "Constant", "Coefficient"])
-    kw = dict(workers=w, offsets=[], boundaries=CROSS_BOUNDARIES[ctx.tier], bump_kinds=kinds)
+    if ctx.tier == "quick":
+        fams = [
+            Placed("cross", FAM_CROSS, 6, ["Mesh", "Constant"], _vac_cross, min_placed=2, budget=2000, n_sim=1, n_real=4),
+            Placed("domains", FAM_DOMAINS, 8, ["Mesh"], _vac_domains, need={"mesh": 3}, budget=1000, n_sim=1, n_real=3),
+            Placed("contraction", FAM_CONTRACT, 8, ["Index"], _vac_contract, budget=1000, n_sim=1, n_real=3),
+        ]
+    else:
+        fams = [
+            Placed("cross", FAM_CROSS_T, 7, ["Mesh", "Constant", "Coefficient"], _vac_cross, min_placed=2, budget=20000, n_sim=6, n_real=60),
+            Placed("domains", FAM_DOMAINS_T, 8, ["Mesh", "Coefficient"], _vac_domains, need={"mesh": 3}, budget=8000, n_sim=3, n_real=24),
+            Placed("contraction", FAM_CONTRACT_T, 9, ["Index", "Coefficient"], _vac_contract, budget=8000, n_sim=3, n_real=24),
+        ]
     combined = comparator == "numeric" and zerosig == "renumbered"
     inv = ["EmitInv", "TypeOK", "RunAgrees"] + (["SigInvariant"] if combined else [])
-    emit = Job("emit/cross-family", fam, comparator, zerosig, len(kinds), steps, emit=True, cmp_of=cmp_of, invariants=inv, **kw)
-    intended = None if combined else Job("intended/cross-family", fam, "numeric", "renumbered", len(kinds), steps, **kw)
-    return emit, intended
+    for f in fams:
+        kw = dict(workers=w, offsets=[], boundaries=CROSS_BOUNDARIES[ctx.tier], bump_kinds=f.kinds, need=f.need)
+        f.emit = Job(f"emit/{f.name}-family", f.caps, comparator, zerosig, len(f.kinds), f.steps, emit=True, cmp_of=cmp_of, invariants=inv, **kw)
+        f.intended = None if combined else Job(f"intended/{f.name}-family", f.caps, "numeric", "renumbered", len(f.kinds), f.steps, **kw)
+    return [f for f in fams if only is None or f.name in only]
 
 
-def cross_part(ctx, chk, job, transcription, base, rng, corrupt=False):
+def cross_part(ctx, chk, fam, transcription, base, rng, corrupt=False):
     """plan + runs + comparison in one go (selftest)"""
-    state = cross_chains(ctx, job, rng)
-    return cross_judge(ctx, chk, state, chk.run_chains(state["chains"]), transcription, corrupt)
+    state = cross_chains(ctx, fam, rng)
+    return cross_judge(ctx, chk, fam, state, chk.run_chains(state["chains"]), transcription, corrupt)
 
 
-def cross_chains(ctx, job, rng):
-    """Every behaviour TLC enumerated for the cross family (script, placement of a digit boundary
+def cross_chains(ctx, fam, rng):
+    """Every behaviour TLC enumerated for a placed family (script, placement of a digit boundary
     inside the objects of every counted class) is replayed on the real code: all of them with
     explicit numbering (one interpreter runs hundreds), a seeded sample with real histories (a fresh
     interpreter can meet at most one placement per digit boundary: counters only grow).  All runs of
     one script must have one signature (judge), and the partition of the runs by real signature
     must be the partition by the model signature TLC printed for exactly that placement."""
-    quick = ctx.tier == "quick"
+    job = fam.emit
     res = job.res
     ctx.add_tlc(res)
     if res.outcome != "ok":
@@ -1854,14 +2027,14 @@ def cross_chains(ctx, job, rng):
         by_script.setdefault(k, {"script": script, "offs": {}})["offs"][tuple(int(x) for x in d["off"])] = json.dumps(d["sig"], sort_keys=True)
     n_beh = sum(len(v["offs"]) for v in by_script.values())
     multi = sum(1 for v in by_script.values() for o in v["offs"] if sum(1 for x in o if x) >= 2)
-    ops = {i["op"] for v in by_script.values() for i in v["script"]}
-    if not multi or "scoef" not in ops or not any(len({i["a"] for i in v["script"] if i["op"] == "const"}) > 1 for v in by_script.values()):
-        raise MachineryError(f"{job.label}: vacuous (behaviours with several shifted counters: {multi}, instructions {sorted(ops)})")
-    ctx.cov["cross_family"] = {"scripts": len(by_script), "behaviours": n_beh, "behaviours_with_several_counters_placed": multi, "boundaries": list(job.boundaries), "counters_placed": job.bump_kinds}
+    why = fam.vacuous(by_script)
+    if why:
+        raise MachineryError(f"{job.label}: vacuous ({why})")
+    ctx.cov[fam.cov_key] = {"scripts": len(by_script), "behaviours": n_beh, "behaviours_with_several_counters_placed": multi, "boundaries": list(job.boundaries), "counters_placed": job.bump_kinds}
     # the scripts that are replayed (thorough: a seeded selection within a budget of runs)
     keys = sorted(by_script)
     rng.shuffle(keys)
-    budget = 2000 if quick else 20000
+    budget = fam.budget
     chosen, n = [], 0
     for k in keys:
         if n + len(by_script[k]["offs"]) > budget and chosen:
@@ -1869,7 +2042,7 @@ def cross_chains(ctx, job, rng):
         chosen.append(k)
         n += len(by_script[k]["offs"])
     # ("family": the runs of these programs are kept apart from runs of the same script in other parts)
-    progs = {k: {"kind": "script", "script": by_script[k]["script"], "family": "cross"} for k in chosen}
+    progs = {k: {"kind": "script", "script": by_script[k]["script"], "family": fam.name} for k in chosen}
     made = {}
     for k in chosen:
         made[k] = measure(progs[k])
@@ -1877,15 +2050,15 @@ def cross_chains(ctx, job, rng):
             raise MachineryError(f"emitted script {show_prog(progs[k])} does not build in the real ufl")
     seeds = hash_seeds(ctx)
     # (1) explicit numbering: every behaviour of the chosen scripts
-    n_sim = 1 if quick else 6
+    n_sim = fam.n_sim
     sim = [[] for _ in range(n_sim)]
     for n, k in enumerate(sorted(chosen, key=lambda k: -len(by_script[k]["offs"]))):
         for off in sorted(by_script[k]["offs"]):
             sim[n % n_sim].append({"program": progs[k], "source": "tlc-placed", "targets": dict(zip(KINDS5, off)), "sim": True})
     chains = [{"seed": seeds[n % len(seeds)], "steps": st, "must": True} for n, st in enumerate(sim) if st]
-    # (2) real histories: behaviours that place several counters, packed greedily into interpreters
-    n_real = 4 if quick else 60
-    cands = [(k, off) for k in chosen for off in sorted(by_script[k]["offs"]) if sum(1 for x in off if x) >= 2]
+    # (2) real histories: behaviours that place (several) counters, packed greedily into interpreters
+    n_real = fam.n_real
+    cands = [(k, off) for k in chosen for off in sorted(by_script[k]["offs"]) if sum(1 for x in off if x) >= fam.min_placed]
     rng.shuffle(cands)
     cands.sort(key=lambda c: max(c[1]))  # stable: lower digit boundaries first, so that an interpreter meets one per boundary
     real = [{"floor": {K: 0 for K in KINDS5}, "steps": []} for _ in range(n_real)]
@@ -1902,13 +2075,13 @@ def cross_chains(ctx, job, rng):
     return {"chains": chains, "by_script": by_script, "made": made}
 
 
-def cross_judge(ctx, chk, state, cases, transcription, corrupt=False):
+def cross_judge(ctx, chk, fam, state, cases, transcription, corrupt=False):
     by_script, made = state["by_script"], state["made"]
     n_runs = sum(len(c.runs) for c in cases.values())
     n_hist = sum(1 for c in cases.values() for r in c.runs if not r.res.get("sim"))
-    print(f"  cross family: {len(cases)} of {len(by_script)} TLC-enumerated scripts, {n_runs} placements replayed ({n_hist} with real histories)", flush=True)
+    print(f"  {fam.name} family: {len(cases)} of {len(by_script)} TLC-enumerated scripts, {n_runs} placements replayed ({n_hist} with real histories)", flush=True)
     if not n_hist:
-        raise MachineryError("cross family: no placement was replayed with a real history")
+        raise MachineryError(f"{fam.name} family: no placement was replayed with a real history")
     unexplained = differs = 0
     for key, case in sorted(cases.items()):
         k = json.dumps(case.prog["script"], sort_keys=True)
@@ -1923,7 +2096,7 @@ def cross_judge(ctx, chk, state, cases, transcription, corrupt=False):
             o = tuple(r.eff[K] if made[k][K] else 0 for K in KINDS5)
             m = by_script[k]["offs"].get(o)
             if m is None:
-                raise MachineryError(f"cross family: {show_prog(case.prog)} ran after the history {off_str(r.eff)}, which TLC did not enumerate")
+                raise MachineryError(f"{fam.name} family: {show_prog(case.prog)} ran after the history {off_str(r.eff)}, which TLC did not enumerate")
             rows.append((r, m + (str(len(rows)) if corrupt else "")))
         ctx.traces(len(rows))
         ctx.evaluated(len(rows))
@@ -1934,16 +2107,16 @@ def cross_judge(ctx, chk, state, cases, transcription, corrupt=False):
             if len(ms) > 1:
                 (ra, rb) = list(ms.values())[:2]
                 raise MachineryError(
-                    f"cross family: SigCounters.tla (transcription {transcription}) gives different signatures for {show_prog(case.prog)} "
+                    f"{fam.name} family: SigCounters.tla (transcription {transcription}) gives different signatures for {show_prog(case.prog)} "
                     f"after histories {off_str(ra.eff)} and {off_str(rb.eff)}, the real signatures are equal: the transcription does not match the code under test"
                 )
         real_of = {}
         for r, m in rows:
             real_of.setdefault(m, set()).add(r.sig("form"))
         unexplained += sum(len(v) - 1 for v in real_of.values())  # judged above: all runs must agree
-    ctx.count("cross_family_real_dependence_not_explained_by_model", unexplained)
-    ctx.cov["cross_family"].update(scripts_replayed=len(cases), placements_replayed=n_runs, placements_replayed_with_real_history=n_hist, scripts_with_discrepancy=differs)
-    c = next((c for c in cases.values() if any(i["op"] == "scoef" for i in c.prog["script"])), None)
+    ctx.count(f"{fam.cov_key}_real_dependence_not_explained_by_model", unexplained)
+    ctx.cov[fam.cov_key].update(scripts_replayed=len(cases), placements_replayed=n_runs, placements_replayed_with_real_history=n_hist, scripts_with_discrepancy=differs)
+    c = next((c for c in cases.values() if any(i["op"] in ("scoef", "integ", "grad") for i in c.prog["script"])), None)
     if c is not None:
         ctx.sample({"kind": "tlc-placed script", "script": show_prog(c.prog), "placements": [off_str(r.eff) for r in c.runs[:6]], "explicit_numbering": sum(1 for r in c.runs if r.res.get("sim")), "real_histories": sum(1 for r in c.runs if not r.res.get("sim"))})
     return unexplained
@@ -2286,13 +2459,12 @@ def run(ctx, args):
     ctx.cov["import_time_counters"] = base
     ctx.cov["ufl_under_test"] = os.path.dirname(os.path.realpath(ufl.__file__))
     intended, emit, coded, transcription = plan_models(ctx)
-    cross_emit, cross_intended = plan_cross(ctx, transcription, 2 if quick else 4)
-    if cross_intended is not None:
-        intended.append(cross_intended)
+    placed = plan_placed(ctx, transcription, 2 if quick else 4)
+    intended += [f.intended for f in placed if f.intended is not None]
     rng = random.Random(1000003 * ctx.seed + (1 if quick else 2))
-    ex = ThreadPoolExecutor(max_workers=4 if quick else 2)  # quick: 4 TLC x 2 workers (7 runs: two rounds), thorough: 2 TLC x 4 workers
+    ex = ThreadPoolExecutor(max_workers=5 if quick else 2)  # quick: 5 TLC x 2 workers (9 runs: two rounds), thorough: 2 TLC x 4 workers
     try:
-        order = [cross_emit] + emit + coded + intended
+        order = [f.emit for f in placed] + emit + coded + intended
         futs = {id(j): ex.submit(j.run, base) for j in order}
         # (c) the property on the corpus, while TLC runs
         # (d) terminals that embed several counters, placement histories of all counters at once:
@@ -2302,11 +2474,13 @@ def run(ctx, args):
         # (b) conformance of the transcription that matches the code under test; (d) the placements of
         # the cross family (terminals that embed several counters, all counters placed at once) run
         # in the same round of interpreters as the first group of (b)
-        for j in [cross_emit] + emit:
+        for j in [f.emit for f in placed] + emit:
             futs[id(j)].result()
-        cross = cross_chains(ctx, cross_emit, random.Random(7368787 * ctx.seed + (3 if quick else 4)))
-        state = conformance_runs(ctx, chk, emit, transcription, base, rng, 40 if quick else 900, t0 + (32 if quick else 480), extra=cross["chains"])
-        cross_judge(ctx, chk, cross, state["others"], transcription)
+        for n, f in enumerate(placed):
+            f.state = cross_chains(ctx, f, random.Random(7368787 * ctx.seed + (3 if quick else 4) + 10 * n))
+        state = conformance_runs(ctx, chk, emit, transcription, base, rng, 40 if quick else 900, t0 + (32 if quick else 480), extra=[c for f in placed for c in f.state["chains"]])
+        for f in placed:
+            cross_judge(ctx, chk, f, f.state, {k: c for k, c in state["others"].items() if c.prog.get("family") == f.name}, transcription)
         msig_future = ex.submit(model_signatures, ctx, base, transcription, state["observed"])  # TLC validates the recorded runs
         print(f"  [{time.time() - t0:.0f}s] conformance runs done", flush=True)
         # (a) counterexamples of the machine as coded, replayed; the intended machine holds
@@ -2435,13 +2609,13 @@ def selftest(ctx):
             raise
     print("selftest 3: corrupted model prediction rejected", flush=True)
     # 4. the same for the placements of the cross family (explicit numbering and real histories)
-    j, _ = plan_cross(p, tr, 2)
-    j.run(base)
+    (fam,) = plan_placed(p, tr, 2, only=("cross",))
+    fam.emit.run(base)
     p = _Probe(ctx)
     chk = Checker(p, pool)
-    cross_part(p, chk, j, tr, base, random.Random(5))  # clean: must not raise
+    cross_part(p, chk, fam, tr, base, random.Random(5))  # clean: must not raise
     try:
-        cross_part(p, chk, j, tr, base, random.Random(5), corrupt=True)
+        cross_part(p, chk, fam, tr, base, random.Random(5), corrupt=True)
         raise MachineryError("selftest: a corrupted model prediction for a placement was accepted")
     except MachineryError as e:
         if "does not match the code under test" not in str(e):
